@@ -172,7 +172,7 @@ def stage_b(fn, call):
             "print(hash_function(v), hash_function({'b': {2, 1}, 'a': frozenset(['x','y','z'])}))")
     outs = set()
     for seed in range(4):
-        env = dict(os.environ, PYTHONHASHSEED=str(seed), PYTHONPATH="/repo")
+        env = dict(os.environ, PYTHONHASHSEED=str(seed), PYTHONPATH=os.environ.get("VF_REPO", "/repo"))
         outs.add(subprocess.run(["/verif/.venv/bin/python", "-c", code], env=env, capture_output=True, text=True).stdout.strip())
     if fn in ("h_set_of_frozensets", "h_set_order", "h_dict_order", "h_nested_container_order"):
         return {"reproduced": None, "hashseed_outputs": sorted(outs), "note": "seed sweep is informational for order conditions"}
